@@ -315,6 +315,12 @@ func keyTermsThrough(p *core.Program, call ssa.CallInstruction, kind, name strin
 	return out
 }
 
+// keyTermsKeepRewrite: keep, in key terms read through an accessor, what the accessor does to its parameter before
+// building the key. Off by default: the name accessors lower-case what every caller has already lower-cased, and the
+// terms do not know that lower-casing is idempotent; switched on where an accessor pair must address the same slot for
+// the same argument (the bid that is paid out and the bid that is deleted).
+var keyTermsKeepRewrite = false
+
 func keyTermsAtCallTB(p *core.Program, tb *core.TermBuilder, call ssa.CallInstruction, callee *ssa.Function, op *core.StoreOp) []string {
 	c := call.Common()
 	var actuals []ssa.Value
@@ -350,7 +356,14 @@ func keyTermsAtCallTB(p *core.Program, tb *core.TermBuilder, call ssa.CallInstru
 		arg := actuals[atoms[0].Idx]
 		path := atoms[0].Path
 		if path == "" {
-			out = append(out, tb.Term(arg))
+			at := tb.Term(arg)
+			// an accessor that rewrites its parameter before building the key (lower-cases it, trims it) addresses
+			// another slot than the one its caller names: keep the rewriting in the term
+			pn := fmt.Sprintf("P%d", atoms[0].Idx)
+			if ct := core.NewTermBuilder(p).Term(comp.Val); keyTermsKeepRewrite && ct != pn && strings.Contains(ct, pn) && !strings.Contains(ct, "⊤") && strings.Count(ct, "P") == 1 {
+				at = strings.Replace(ct, pn, at, 1)
+			}
+			out = append(out, at)
 			continue
 		}
 		field := strings.TrimPrefix(path, ".")
@@ -1674,4 +1687,130 @@ func callbackNeverStops(p *core.Program, fn *ssa.Function, lb, sc *ssa.BasicBloc
 		}
 	}
 	return n > 0
+}
+
+// equalityHelper recognises a call of a repository helper that only compares two of its parameters — every return hands
+// back bytes.Equal / Equals / == of two parameters (possibly converted) — and gives the two arguments compared at this call.
+func equalityHelper(p *core.Program, call *ssa.Call) (a, b ssa.Value, ok bool) {
+	cals := p.Callees(call)
+	if len(cals) != 1 || cals[0].Blocks == nil || cals[0].Signature.Results().Len() != 1 {
+		return nil, nil, false
+	}
+	f := cals[0]
+	actual := func(v ssa.Value) ssa.Value {
+		for i := 0; i < 4; i++ {
+			switch x := v.(type) {
+			case *ssa.Convert:
+				v = x.X
+				continue
+			case *ssa.ChangeType:
+				v = x.X
+				continue
+			case *ssa.MakeInterface:
+				v = x.X
+				continue
+			case *ssa.Call:
+				// a view of the same value: addr.Bytes(), addr.String()
+				if n := x.Call.StaticCallee(); n != nil && len(p.Callees(x)) == 0 && len(x.Call.Args) == 1 && (n.Name() == "Bytes" || n.Name() == "String") {
+					v = x.Call.Args[0]
+					continue
+				}
+			}
+			break
+		}
+		pa, isP := v.(*ssa.Parameter)
+		if !isP {
+			return nil
+		}
+		var actuals []ssa.Value
+		if call.Call.IsInvoke() {
+			actuals = append(actuals, call.Call.Value)
+		}
+		actuals = append(actuals, call.Call.Args...)
+		for i, q := range f.Params {
+			if q == pa && i < len(actuals) {
+				return actuals[i]
+			}
+		}
+		return nil
+	}
+	n := 0
+	for _, blk := range f.Blocks {
+		ret, isRet := blk.Instrs[len(blk.Instrs)-1].(*ssa.Return)
+		if !isRet {
+			continue
+		}
+		var x, y ssa.Value
+		switch v := ret.Results[0].(type) {
+		case *ssa.Call:
+			name := core.CalleeFullName(v)
+			if len(p.Callees(v)) != 0 || len(v.Call.Args) != 2 || !(name == "bytes.Equal" || strings.HasSuffix(name, ".Equals") || strings.HasSuffix(name, ".Equal")) {
+				return nil, nil, false
+			}
+			x, y = actual(v.Call.Args[0]), actual(v.Call.Args[1])
+		case *ssa.BinOp:
+			if v.Op != token.EQL {
+				return nil, nil, false
+			}
+			x, y = actual(v.X), actual(v.Y)
+		default:
+			return nil, nil, false
+		}
+		if x == nil || y == nil || (n > 0 && (x != a || y != b)) {
+			return nil, nil, false
+		}
+		a, b = x, y
+		n++
+	}
+	return a, b, n > 0
+}
+
+// methodFieldAssign is an assignment to a field of a local record made by a function of the repository that was handed
+// the record's address (rec.SetCount(n)): the stored value lives in that function, Call is the call that handed it in.
+type methodFieldAssign struct {
+	Val    ssa.Value
+	Call   ssa.CallInstruction
+	Callee *ssa.Function
+}
+
+func fieldAssignsThroughMethods(p *core.Program, al *ssa.Alloc, field string) []methodFieldAssign {
+	var out []methodFieldAssign
+	if al == nil || al.Referrers() == nil {
+		return nil
+	}
+	for _, ref := range *al.Referrers() {
+		cs, isCall := ref.(ssa.CallInstruction)
+		if !isCall || cs.Common().IsInvoke() {
+			continue
+		}
+		for _, cal := range p.Callees(cs) {
+			for i, a := range cs.Common().Args {
+				if a != ssa.Value(al) || i >= len(cal.Params) || !p.MayWriteField(cal, i, field) {
+					continue
+				}
+				prm := cal.Params[i]
+				allInstrs(cal, func(in ssa.Instruction) {
+					if st, ok := in.(*ssa.Store); ok {
+						if fa, ok := st.Addr.(*ssa.FieldAddr); ok && fa.X == ssa.Value(prm) && core.FieldName(fa.X.Type(), fa.Field) == field {
+							out = append(out, methodFieldAssign{st.Val, cs, cal})
+						}
+					}
+				})
+			}
+		}
+	}
+	return out
+}
+
+// termInCall: the term of a value of callee `cal` with the callee's parameters bound to the arguments of `call`.
+func termInCall(p *core.Program, v ssa.Value, cal *ssa.Function, call ssa.CallInstruction) string {
+	outer := core.NewTermBuilder(p)
+	sub := core.NewTermBuilder(p)
+	sub.Bind = map[*ssa.Parameter]core.BoundVal{}
+	for i, prm := range cal.Params {
+		if i < len(call.Common().Args) {
+			sub.Bind[prm] = core.BoundVal{Val: call.Common().Args[i], TB: outer}
+		}
+	}
+	return sub.Term(v)
 }
